@@ -33,18 +33,24 @@ import (
 // a rendezvous at AddBinding.afterCheck (between the single-binding check and the insertion); also
 // unbind || bind || bind and bind/unbind/bind sequences under jitter. Invariants at quiescence and porcupine
 // with a register model per server feature.
+//
+// conc-rmw / conc-rmw-race and early parts: see regkit.go (rkRmwCase, rkEarlyCase) and the header of c08.go; here with
+// bind / unbind, BindingsOnFeature, HasLocalFeatureRemoteBinding, Bindings(peer) and nodeManagementBindingData.
 
 func init() {
 	rig.Register(&rig.Check{
 		ID:    "C09",
 		Floor: 450,
 		Rule: "sequential case = one World (3 local server features, 2 of them of the same type, 1 local client feature, 3 identically numbered peers with 2 same-typed client features each) and a seeded history of 10-25 operations " +
-			"{bind (valid / server already bound by the same client, another client of the peer, another peer / wrong role / wrong type / unknown entity / unknown feature, device part omitted), " +
+			"{bind (valid / server already bound by the same client, another client of the peer, another peer / wrong role / wrong type / requested type Generic for concretely typed features / unknown entity / unknown feature, device part omitted; clients in [1], [1,1] and the device information entity [0]), " +
 			"unbind (holder / same numbers from another peer / other client of the holder's peer / holder's client on another server / unknown), registry read}; a fifth of the requests and half of the deletes that use the numbers of another peer's binding carry a FOREIGN device part " +
 			"in the client and/or server address (client address: the device of another connected peer - preferably the holder -, of the local device or of nobody; server address: the device of a peer or of nobody); non-trivial if it saw a grant, a rejection of a second binding and a successful unbind. " +
 			"duel case = k in 2..4 connections issuing bind (and unbind) for one server feature concurrently with the window after the single-binding check forced by a rendezvous or jittered; in every fifth case ('foreign') peer 0 holds the contested binding and a bystander binding on a second server feature, " +
 			"and the other connections send deletes and requests that name peer 0's (or another) device with numbers that exist on every peer, mixed with ordinary calls; non-trivial if the window was forced (all k binds held between check and insertion) or, for the jitter variants, if at least two operations overlapped, and porcupine decided. " +
-			"distinct = hash of operation shapes and outcomes (sequential) / variant, k, clients and hook trace (duel).",
+			"rmw case (regkit.go) = a registry pre-filled with 50-250 bindings of a silent bystander connection (one per server feature); 3-4 actor goroutines, each with its own connection and its own 1-2 server features, toggle bind / unbind (now and then a repeated call) for 6 (thorough 12) rounds of 8-16 calls each; " +
+			"every call's answer must be the one the history of its own server feature demands (calls on different server features commute), and at the quiescent point after every round BindingsOnFeature, HasLocalFeatureRemoteBinding, Bindings(peer) with ids, one nodeManagementBindingData read, " +
+			"the bystander's bindings and the add/remove events must equal what the acknowledged calls leave; non-trivial if in some round a call overlapped an acknowledged delete of another connection (call/return stamps from one atomic counter). " +
+			"distinct = hash of operation shapes and outcomes (sequential) / variant, k, clients and hook trace (duel) / sizes and overlap counts (rmw).",
 		Assumptions: []string{
 			"message handling is synchronous, so results, events and registry are complete when the call into the stack has returned",
 			"requests that omit the device part of an address are judged by the entity/feature part on the sender's resp. the local tree",
@@ -52,18 +58,64 @@ func init() {
 				"If the entity/feature numbers justify the request, both outcomes are accepted for the SENDER's own binding (result, event and registry must agree); if they do not, it must be refused; in no case may it add, remove or renumber a binding of another connection " +
 				"(pinned tree: bind requests are served by the numbers; a delete compares the client device literally and is refused; a foreign server device is ignored)",
 			"NodeManagement (special role) is not used as a binding target and special-role or Generic client features are not generated: the statement does not fix their treatment",
+			"a requested serverFeatureType Generic is not 'the requested type' of a concretely typed feature: such a request must be refused",
+			"rmw part: no hook point exists inside RemoveBinding; the overlap of calls is not forced but measured (counts rmw_rounds_*), and only logical call/return stamps are used",
 			"a rendezvous that expires only means 'window not forced' (counted); it never decides a verdict",
 		},
 		Parts: []rig.Part{
 			{Name: "seq", Cases: func(t rig.Tier) int { return map[rig.Tier]int{rig.Quick: 1200, rig.Thorough: 48000}[t] }, Run: c09Seq, Procs: 2},
 			{Name: "conc-duel", Cases: func(t rig.Tier) int { return map[rig.Tier]int{rig.Quick: 1125, rig.Thorough: 45000}[t] }, Run: c09Duel, Procs: 4, Quiet: 90 * time.Second},
 			{Name: "conc-duel-race", Race: true, Cases: func(t rig.Tier) int { return map[rig.Tier]int{rig.Quick: 400, rig.Thorough: 8000}[t] }, Run: c09Duel, Procs: 4, Quiet: 120 * time.Second},
+			{Name: "conc-rmw", Cases: func(t rig.Tier) int { return map[rig.Tier]int{rig.Quick: 40, rig.Thorough: 800}[t] }, Run: func(c *rig.Ctx) { rkRmwCase(c, c09RegKind) }, Procs: 4, Quiet: 120 * time.Second},
+			{Name: "early", Cases: func(t rig.Tier) int { return map[rig.Tier]int{rig.Quick: 120, rig.Thorough: 3000}[t] }, Run: func(c *rig.Ctx) { rkEarlyCase(c, c09RegKind) }, Procs: 2},
+			{Name: "conc-rmw-race", Race: true, Cases: func(t rig.Tier) int { return map[rig.Tier]int{rig.Quick: 0, rig.Thorough: 96}[t] }, Run: func(c *rig.Ctx) { rkRmwCase(c, c09RegKind) }, Procs: 4, Quiet: 180 * time.Second},
 		},
 	})
 }
 
+// c09RegKind: the binding registry as seen by the shared "rmw" part (regkit.go).
+var c09RegKind = rkRegKind{
+	name: "binding", exclusive: true, evType: api.EventTypeBindingChange,
+	add: func(p *rig.Peer, ca, sa *model.FeatureAddressType, t model.FeatureTypeType) model.MsgCounterType {
+		return p.Bind(ca, sa, t)
+	},
+	del: func(p *rig.Peer, ca, sa *model.FeatureAddressType) model.MsgCounterType { return p.Unbind(ca, sa) },
+	onFeature: func(w *rig.World, sa model.FeatureAddressType) []string {
+		var ks []string
+		for _, en := range w.Local.BindingManager().BindingsOnFeature(sa) {
+			ks = append(ks, rkFeatKey(en.ClientFeature))
+		}
+		sort.Strings(ks)
+		return ks
+	},
+	ofPeer: func(w *rig.World, p *rig.Peer) []string {
+		var es []string
+		for _, en := range w.Local.BindingManager().Bindings(p.RD) {
+			es = append(es, fmt.Sprintf("#%d %s>%s", en.Id, rkFeatKey(en.ClientFeature), rkFeatKey(en.ServerFeature)))
+		}
+		sort.Strings(es)
+		return es
+	},
+	has: func(w *rig.World, sa, ca *model.FeatureAddressType) (bool, bool) {
+		return w.Local.BindingManager().HasLocalFeatureRemoteBinding(sa, ca), true
+	},
+	readCmd: func() model.CmdType {
+		return model.CmdType{NodeManagementBindingData: &model.NodeManagementBindingDataType{}}
+	},
+	readBack: func(cmd model.CmdType) ([]string, bool) {
+		if cmd.NodeManagementBindingData == nil {
+			return nil, false
+		}
+		var ps []string
+		for _, en := range cmd.NodeManagementBindingData.BindingEntry {
+			ps = append(ps, rkKey(en.ClientAddress)+">"+rkKey(en.ServerAddress))
+		}
+		return ps, true
+	},
+}
+
 var c09Servers = []string{"S0", "S1", "S2"}
-var c09Clients = []string{"a", "b", "c"}
+var c09Clients = []string{"a", "b", "c", "g"}
 
 // c09Expect evaluates the statement's conjunction for a binding request.
 func c09Expect(cw *c08World, binds map[string]c08Entry, cli, srv string, typ model.FeatureTypeType) (verdict, reason string) {
@@ -318,7 +370,12 @@ func c09Seq(c *rig.Ctx) {
 				}
 				p = w.Peers[pi]
 			default:
-				switch r.Intn(9) {
+				switch r.Intn(11) {
+				case 9, 10:
+					// the requested type is Generic while the addressed server feature (and the client) has a concrete type:
+					// that is not "the requested type"
+					pr := [][2]string{{"a", "S0"}, {"b", "S1"}, {"c", "S2"}, {"g", "S0"}}[r.Intn(4)]
+					kind, cli, srv, typ = "generic-type-requested", pr[0], pr[1], model.FeatureTypeTypeGeneric
 				case 0:
 					kind, cli, srv, typ = "wrong-role-server", "f", "LC", model.FeatureTypeTypeMeasurement
 				case 1:
@@ -407,6 +464,9 @@ func c09Seq(c *rig.Ctx) {
 			judgeEvents("bind", api.ElementChangeAdd, granted, pi, cliKey, srvKey)
 			judgeRegistry("bind/" + sreason)
 			c.Count("bind:"+reason, 1)
+			if kind == "generic-type-requested" {
+				c.Count(fmt.Sprintf("bind:%s:%s>%s granted=%v", kind, cli, srv, granted), 1)
+			}
 			if reason == "already-bound" {
 				c.Count("bind:"+kind, 1)
 			}
@@ -434,7 +494,7 @@ func c09Seq(c *rig.Ctx) {
 			case k < 72 && len(holders) > 0:
 				h := holders[r.Intn(len(holders))]
 				kind, srv, pi = "other-client-of-holders-peer", h.srv, h.peer
-				cli = map[string]string{"a": "b", "b": "a", "c": "a"}[h.cli]
+				cli = map[string]string{"a": "b", "b": "a", "c": "a", "g": "a"}[h.cli]
 			case k < 86 && len(holders) > 0:
 				h := holders[r.Intn(len(holders))]
 				kind, cli, pi = "holders-client-on-other-server", h.cli, h.peer
